@@ -564,7 +564,7 @@ class Notes:
                 if any(hs is None for hs in handlers) or names != ["builtins.IndexError"]:
                     fail(r, ctx, f, ti.node, f"the handler around the lane store must catch exactly IndexError; it catches "
                                              f"{names or 'everything'}")
-                inside = any(n is ti.node for n in ast.walk(loop.node))
+                inside = any(n is ti.node or n is getattr(ti.node, "_origin", None) for n in ast.walk(loop.node))
                 if not inside:
                     fail(r, ctx, f, ti.node, "the IndexError handler must be inside the loop (per datum); around the whole loop "
                                              "the first flag/open line aborts the scan and later lane lines of the tick are lost")
